@@ -32,11 +32,11 @@ def run(ctx):
         for c in confs:
             f.write(json.dumps([js(l) for l in c]) + "\n")
     trace = os.path.join(ctx.out, "trace.ndjson")
-    rc, out = vlib.vh(["index", "--configs", cf, "--random", 60 if q else 1500, "--seed", ctx.seed, "--out", trace], timeout=1800)
+    rc, out = vlib.vh(["index", "--configs", cf, "--random", 60 if q else 10000, "--seed", ctx.seed, "--out", trace], timeout=1800)
     if rc != 0:
         raise vlib.ToolError("index driver failed: " + out[-2000:])
     recs = [json.loads(l) for l in open(trace)]
-    rv = vlib.tlc("IndexTrace.tla", "IndexTrace.cfg", workers=1, timeout=3000, env={"TRACE": trace},
+    rv = vlib.tlc("IndexTrace.tla", "IndexTrace.cfg", workers=1, timeout=12000, env={"TRACE": trace},
                   metadir=os.path.join(ctx.out, "tv"), heap="6g")
     if rv.error or rv.violated or rv.printed("TOOLERR"):
         open(os.path.join(ctx.out, "tv.log"), "w").write(rv.out)
